@@ -6,6 +6,20 @@ var _ = gosym.Options{}
 
 var props = []PropSpec{
 	{
+		ID: "C13", Level: "other",
+		Explanation: "algebraic laws asserted as SMT terms over symbolic values of one static type (type shape from selectors; list lengths, none/some, any-object key sets and all scalar payloads independent solver variables): IsEqual reflexive/symmetric/transitive and equal to reference structural equality, Clone equal and unshared, both value libraries render the same text, to_json -> parse_json -> cast round trip equal",
+		Harnesses: []HarnessSpec{
+			{Pkg: "homescript", Func: "VerifHarness_EqLaws", Quick: map[string]int{"depth": 1}, Thor: map[string]int{"depth": 2}, ThorPaths: 400000, ThorSecs: 1200, Require: []string{"compared"},
+				What: "two values of one static type, both libraries: reflexive, symmetric, == iff same structural content (B.5); VM Clone equal to original and sharing no mutable state"},
+			{Pkg: "homescript", Func: "VerifHarness_EqTransitive", Quick: map[string]int{"depth": 0}, Thor: map[string]int{"depth": 1}, Require: []string{"compared"},
+				What: "three values of one static type: transitivity"},
+			{Pkg: "homescript", Func: "VerifHarness_DisplayAgree", Quick: map[string]int{"depth": 1}, Thor: map[string]int{"depth": 2}, ThorPaths: 200000, ThorSecs: 900, Require: []string{"displayed"},
+				What: "both value libraries render a value as the same text (insertion-order map iteration; ordering nondeterminism is C14's subject)"},
+			{Pkg: "homescript", Func: "VerifHarness_JsonRoundTrip", Quick: map[string]int{"depth": 1}, Require: []string{"round-tripped"},
+				What: "v.to_json().parse_json() as T is equal to v for JSON-representable v (finite floats), through the real members and DeepCast, JSON text modelled by contract"},
+		},
+	},
+	{
 		ID: "C12", Level: "other",
 		Explanation: "bounded symbolic execution of DeepCast of both value libraries on a symbolic (value tree, type tree) pair (kinds from selectors, scalar payloads unconstrained) against the conformance reference B.4; program-level cast templates and the VM host boundary (SpawnSync argument validation) with symbolic payloads",
 		Harnesses: []HarnessSpec{
